@@ -195,6 +195,19 @@ def pi_returns(a, p, ex):
   return res
 
 
+def _pi_prep_current(a):
+  raw = a.self.raw('preprocessor')
+  cur = a.self.raw('preprocessor_')
+  if raw is None or isinstance(raw, VNone):
+    return z3.BoolVal(isinstance(cur, VNone))
+  if 'callable' in (getattr(raw, 'types', None) or ()):
+    return (cur.t == raw.t) if isinstance(cur, VRef) else z3.BoolVal(False)
+  # array-like: an ArrayIndexer object that did not exist when the call started, or the contract-level indexer of the parameter
+  if isinstance(cur, VObj):
+    return z3.BoolVal(cur.cls == 'ArrayIndexer' and (a.old is None or cur.oid not in a.old))
+  return (cur.t == indexer_ref(raw.t)) if isinstance(cur, VRef) else z3.BoolVal(False)
+
+
 register(Contract(
     'base_metric:BaseMetricLearner._prepare_inputs',
     cases=pi_cases(), match=pi_match,
@@ -209,6 +222,9 @@ register(Contract(
                                                                   z3.Implies(a.X.ndim == pi_rank(a), r[1].dim(0) == r[0].dim(0))),
         'pair-labels-are-plus-minus-one': lambda a, r: None if (a.y is None or a.type_of_inputs != 'tuples') else
             TH.array_equal(TH.absT(r[1].term), TH.ones_like(r[1].term)),
+        # C05 / C06 / C17: what later calls resolve indicators with is derived from the CURRENT `preprocessor` parameter by this very call
+        # (None -> None, callable -> that callable, array-like -> an indexer built now), whatever an earlier use left in preprocessor_
+        'preprocessor_-reflects-the-current-parameter': lambda a, r: _pi_prep_current(a),
         # C03 / C17: n_features_in_ = number of features of the points seen by THIS fit
         'n_features_in_-is-feature-count-of-this-fit': lambda a, r: a.self.n_features_in_ == pi_data(a, r).dim(pi_rank(a) - 1),
     },
